@@ -75,7 +75,10 @@ class Lane:
         try:
             self.stderr.flush()
             with open(self.stderr_path, encoding='utf8', errors='replace') as handle:
-                return handle.read()[-1500:]
+                text = handle.read()
+                # faulthandler's 'Timeout (h:mm:ss)!' header precedes the stack dump: keep it visible for is_timeout()
+                mark = 'Timeout (limit exceeded)! ... ' if 'Timeout (' in text[:-1500] else ''
+                return mark + text[-1500:]
         except OSError:
             return ''
 
@@ -134,9 +137,10 @@ def run_batch(prop, tier, base_seed, budget_s=None, nruns=None):  # pylint: disa
         budget_s = info.get('quick_budget_s', 150) if quick else float(os.environ.get('VERIF_BUDGET_S', info.get('thorough_budget_s', 720)))
     # generous: a run normally takes 10 ms - 5 s; the limit only turns a genuine hang into a harness error, also when
     # the machine is heavily loaded by other jobs
-    per_run = info.get('run_limit_s', 400) * (1 if quick else 3)
+    per_run = int(os.environ.get('VERIF_RUN_LIMIT_S', 0)) or info.get('run_limit_s', 400) * (1 if quick else 3)
     records = {}
     errors = []
+    timeouts = {}
     lock = threading.Lock()
     stop = threading.Event()
     ncpu = os.cpu_count() or 1
@@ -158,6 +162,13 @@ def run_batch(prop, tier, base_seed, budget_s=None, nruns=None):  # pylint: disa
                     try:
                         out = lane.call(job, per_run)
                     except LaneDead as exc:
+                        if is_timeout(exc) and len(timeouts) < 6:
+                            # decided after the batch (retry_timeouts): slow under load, or a genuine hang?
+                            with lock:
+                                timeouts[index] = str(exc)
+                            lane.close()
+                            lane = Lane(lane_hashseed(base_seed, lane_no))
+                            continue
                         with lock:
                             errors.append(f'lane {lane_no} run {index}: {exc}')
                         stop.set()
@@ -182,7 +193,63 @@ def run_batch(prop, tier, base_seed, budget_s=None, nruns=None):  # pylint: disa
         thr.start()
     for thr in threads:
         thr.join()
+    if timeouts and not errors:
+        retry_timeouts(prop, tier, base_seed, timeouts, per_run, records, errors)
     return records, errors, time.time() - started
+
+
+def is_timeout(exc):
+    return 'Timeout (' in str(exc) or 'no answer within' in str(exc)
+
+
+def retry_timeouts(prop, tier, base_seed, timeouts, per_run, records, errors):
+    """A run that exceeded the per-run limit while 16 lanes (and whatever else) loaded the machine is re-executed alone in
+    a fresh interpreter with the same limit. If it completes, its result is used like any other (slow, not wrong). If it
+    exceeds the limit again, the operation under test does not terminate: that is reported as a violation of class
+    'hang' with the generated case as the replay file (no minimisation: every attempt would cost the full limit)."""
+    hung = 0
+    for index in sorted(timeouts):
+        lane_no = index % NLANES
+        hashseed = lane_hashseed(base_seed, lane_no)
+        job = {'cmd': 'run', 'prop': prop, 'index': index, 'base': base_seed, 'tier': tier}
+        if hung:
+            continue  # one hanging run is reported; further runs over the limit are not retried
+        try:
+            out = run_single(job, hashseed, per_run)
+            out['lane'] = lane_no
+            out['hashseed'] = hashseed
+            out['slow'] = True
+            records[index] = out
+            if out['result'].get('error'):
+                errors.append(f'run {index}: {out["result"]["error"]}')
+        except LaneDead as exc:
+            if not is_timeout(exc):
+                errors.append(f'run {index} (retry alone): {exc}')
+                continue
+            hung += 1
+            try:
+                case = run_single(dict(job, cmd='gen'), hashseed, 120)['case']
+            except (LaneDead, KeyError) as exc2:
+                errors.append(f'run {index}: hangs, and its case could not be generated: {exc2}')
+                continue
+            records[index] = {
+                'index': index,
+                'seed': case.get('seed'),
+                'lane': lane_no,
+                'hashseed': hashseed,
+                'case': case,
+                'lift': None,
+                'result': {
+                    'ok': False,
+                    'error': None,
+                    'violation': {
+                        'class': 'hang',
+                        'detail': f'the run did not finish within {per_run} s, neither in the batch nor alone in a fresh interpreter; '
+                        f'stack at the limit: {str(exc)[-1200:]}',
+                        'step': None,
+                    },
+                },
+            }
 
 
 def run_single(job, hashseed, timeout):
@@ -195,7 +262,9 @@ def run_single(job, hashseed, timeout):
 
 def determinism_selftest(prop, tier, base_seed, records, count=3):
     """Re-run a few runs alone, in fresh interpreters with the same PYTHONHASHSEED: digests must match."""
-    ok_idx = sorted(i for i, r in records.items() if not r['result'].get('error'))
+    ok_idx = sorted(
+        i for i, r in records.items() if not r['result'].get('error') and (r['result'].get('violation') or {}).get('class') != 'hang'
+    )
     if not ok_idx:
         return []
     picks = sorted({ok_idx[0], ok_idx[len(ok_idx) // 2], ok_idx[-1]})[:count]
@@ -356,7 +425,7 @@ def check(prop, tier, base_seed):
             notes.append(f"NOTE knob-only candidate (run {index}): {cand['class']}")
     paths = []
     if real and not errors:
-        path, result = handle_violation(prop, real[0])
+        path, result = handle_violation(prop, real[0], minimise=real[0]['result']['violation']['class'] != 'hang')
         paths.append(path)
         print(f"violation class: {result['violation']['class']}", flush=True)
         print(f"violation detail: {result['violation']['detail'][:600]}", flush=True)
@@ -382,7 +451,16 @@ def check(prop, tier, base_seed):
 def replay(path):
     with open(path, encoding='utf8') as handle:
         doc = json.load(handle)
-    out = run_single({'cmd': 'case', 'case': doc['case']}, doc['hashseed'], 600)
+    limit = int(os.environ.get('VERIF_REPLAY_LIMIT_S', 1200))
+    try:
+        out = run_single({'cmd': 'case', 'case': doc['case']}, doc['hashseed'], limit)
+    except LaneDead as exc:
+        if is_timeout(exc) and doc['violation']['class'] == 'hang':
+            print(f'replayed: hang (no result within {limit} s; recorded: hang) same_class=True')
+            print(f"VIOLATION property={doc['property']} replay={path}")
+            return 1
+        print(f'HARNESS-ERROR: {exc}')
+        return 2
     res = out['result']
     if res.get('error'):
         print(f"HARNESS-ERROR: {res['error']}")
